@@ -71,7 +71,7 @@ func ParseHash(s string) (Hash, error) {
 // as well as l = log₂ k (so k = 1<<l).
 func maxpow2(n int64) (k int64, l int) {
 	l = 0
-	for 1<<uint(l+1) < n {
+	for l < 62 && 1<<uint(l+1) < n {
 		l++
 	}
 	return 1 << uint(l), l
